@@ -209,7 +209,11 @@ def rw_unit(kind, T, framesv, ch, tier):
 
 
 def units():
-    U = []
+    U = [{"name": "sndfile.sf_seek", "props": ["C06", "C08", "C09", "C19", "C15"], "harness": "sndfile_seek.harness.c",
+          "entry": "h_seek", "enforce": "sf_seek", "function": "sndfile.c:sf_seek", "replace": ["psf_file_valid"],
+          "cbmc_flags": ["--object-bits", "12"], "timeout": 600, "replay_driver": "sndfile_seek.c",
+          "replay_link": "all", "replay_exclude": ["sndfile.c"],
+          "trusted": ["generic dispatch contract codec_seek_c stands for psf->seek"]}]
     for kind in ("read", "write"):
         for T in TYPES:
             for framesv in (False, True):
